@@ -178,8 +178,8 @@ fn main() {
             if !touches_global(p1) || !touches_global(p2) {
                 continue;
             }
-            // thorough: 3-op programs only against programs of <= 2 ops (bounded blow-up)
-            if p1.len() + p2.len() > 5 {
+            // thorough: 3-op programs only against programs of <= 1 op (bounded blow-up)
+            if p1.len() + p2.len() > 4 {
                 continue;
             }
             pairs += 1;
